@@ -100,8 +100,8 @@ func checkSettingsWriters(c *Ctx, r *Report, rule string, onlyPkgs []string) {
 		for root.Parent() != nil {
 			root = root.Parent()
 		}
-		if strings.HasPrefix(root.Name(), "New") && root.Signature.Recv() == nil {
-			continue // constructors set defaults (C19/O8 decides what they may do behind the option loop)
+		if isConstructorCode(c, root) {
+			continue // constructors (and helpers only they call) set defaults; C19/O8 decides what they may do behind the option loop
 		}
 		if len(onlyPkgs) > 0 {
 			in := false
@@ -358,7 +358,7 @@ func checkLevelCacheWriters(c *Ctx, r *Report, rule string) {
 			for root.Parent() != nil {
 				root = root.Parent()
 			}
-			if strings.HasPrefix(root.Name(), "New") && root.Signature.Recv() == nil {
+			if isConstructorCode(c, root) {
 				r.OK(rule, construct, c.Pos(in.Pos()), "constructor default")
 				return
 			}
